@@ -657,7 +657,7 @@ func ReadPending(path string) (job string, idx int64, op string, input []byte, e
 // clock alone (on a loaded machine a legitimate call may be in flight for a long time):
 //
 //	busy hang     in flight > CallLimit  and the process has burnt > CPULimit of CPU time since the call began
-//	blocked hang  in flight > BlockedLimit and the process has used < 2 s of CPU time since the call began
+//	blocked hang  in flight > BlockedLimit (90 s) and the process has used < 2 s of CPU time since the call began
 //	stall         in flight > StallLimit with neither: the machine is too loaded to tell (exit 5, inconclusive)
 //
 // A hang ends the shard with a HANG record (exit 4); the driver re-runs the case alone before
@@ -666,7 +666,7 @@ func ReadPending(path string) (job string, idx int64, op string, input []byte, e
 var (
 	CallLimit    = 20 * time.Second
 	CPULimit     = 30 * time.Second
-	BlockedLimit = 180 * time.Second
+	BlockedLimit = 90 * time.Second
 	StallLimit   = 1500 * time.Second
 )
 
